@@ -16,7 +16,7 @@ def run(prop, tier, seed, known):
 
     class Fails(list):
         """keeps only the relations that belong to the property being checked"""
-        RULES = (('octave', ('C09',)), ('raised', ('C14',)), ('accepted', ('C14',)), ('out of', ('C01',)), ('not binary', ('C01',)), ('nested', ('C07',)), ('above without', ('C07',)),
+        RULES = (('its definition', ('C04',)), ('octave', ('C09',)), ('raised', ('C14',)), ('accepted', ('C14',)), ('out of', ('C01',)), ('not binary', ('C01',)), ('nested', ('C07',)), ('above without', ('C07',)),
                  ('perfect', ('C02',)), ('shift', ('C08',)), ('reordering', ('C08',)), ('symmetric', ('C06',)), ('swap', ('C06',)))
 
         def append(self, msg):
@@ -97,6 +97,24 @@ def run(prop, tier, seed, known):
                         if key != 'Information gain' and abs(ev[key] - ev2[key]) > 1e-9:
                             fails.append('beat %s changes under a common time shift of %s: %r vs %r (%s, start %s)' % (key, d, ev[key], ev2[key], kind, start))
                             break
+                # C04: Cemgil accuracy per its definition (Gaussian error of the closest estimate to every reference beat, normalised by the mean
+                # number of beats), and its best value over the five metrical variations built here independently
+                import math
+                sig = rng.choice([0.04, 0.02, 0.1])
+                def cem(rb, eb):
+                    if len(rb) == 0 or len(eb) == 0:
+                        return 0.0
+                    return sum(max(math.exp(-((e - b) ** 2) / (2 * sig ** 2)) for e in eb) for b in rb) / (0.5 * (len(eb) + len(rb)))
+                rl_, el_ = ref.tolist(), est.tolist()
+                mids = [(a + b) / 2 for a, b in zip(rl_, rl_[1:])]
+                dbl = sorted(rl_ + mids)
+                variations = [rl_, mids, dbl, rl_[::2], rl_[1::2]]
+                if len(el_):
+                    got_c = guard('beat.cemgil', lambda: beat.cemgil(ref, est, cemgil_sigma=sig))
+                    if got_c is not None:
+                        want_c = (cem(rl_, el_), max(cem(v, el_) for v in variations))
+                        if abs(got_c[0] - want_c[0]) > 1e-9 or abs(got_c[1] - want_c[1]) > 1e-9:
+                            fails.append('beat.cemgil(sigma=%s) = %s, its definition gives %s (%s, period %s)' % (sig, tuple(float(x) for x in got_c), want_c, kind, period))
                 f1 = beat.f_measure(ref, est)
                 f2 = beat.f_measure(est, ref) if len(est) else f1
                 if abs(f1 - f2) > 1e-12:
